@@ -1,7 +1,14 @@
 package c12
 
 import (
+	"fmt"
+	"math/big"
+
 	"github.com/bronlabs/bron-crypto/pkg/base/curves/k256"
+	"github.com/bronlabs/bron-crypto/pkg/base/nt/num"
+	"github.com/bronlabs/bron-crypto/pkg/base/nt/znstar"
+	"github.com/bronlabs/bron-crypto/pkg/commitments/intcom"
+	"verif/harness/vlib"
 	"github.com/bronlabs/bron-crypto/pkg/key_agreement"
 	"github.com/bronlabs/bron-crypto/pkg/key_agreement/dh/dhc"
 	"verif/harness/vlib/lx"
@@ -38,6 +45,73 @@ func init() {
 		}
 		return roots, nil
 	})
+}
+
+// Ring-Pedersen (integer commitment) material over two fixture SAFE primes, through the library's
+// constructors: t a random square of Z*_N, lambda a unit modulo phi(N)/4, s = t^lambda.
+func init() {
+	defSource("gen/intcom", func() ([]root, error) {
+		r := prng("intcom")
+		ps := vlib.Primes(512, "safe")
+		if len(ps) < 2 {
+			return nil, fmt.Errorf("need two 512-bit safe fixture primes")
+		}
+		grp, err := znstar.NewRSAGroup(natPlus(ps[0]), natPlus(ps[1]))
+		if err != nil {
+			return nil, err
+		}
+		phi4 := new(big.Int).Mul(new(big.Int).Rsh(ps[0], 1), new(big.Int).Rsh(ps[1], 1))
+		zm, err := num.NewZMod(natPlus(phi4))
+		if err != nil {
+			return nil, err
+		}
+		var roots []root
+		for i := 0; i < 2; i++ {
+			u, err := grp.Random(r)
+			if err != nil {
+				return nil, err
+			}
+			lambda, err := zm.FromBig(new(big.Int).Add(new(big.Int).Mod(bigFrom(r, 900), new(big.Int).Sub(phi4, big.NewInt(3))), big.NewInt(2)))
+			if err != nil {
+				return nil, err
+			}
+			td, err := intcom.NewTrapdoorKey(u.Square(), lambda)
+			if err != nil {
+				continue // lambda not a unit / t degenerate: draw again
+			}
+			ck := td.Export()
+			w, err := ck.SampleWitness(r)
+			if err != nil {
+				return nil, err
+			}
+			mv, err := num.Z().FromBig(new(big.Int).Neg(bigFrom(r, 200)))
+			if err != nil {
+				return nil, err
+			}
+			m, err := intcom.NewMessage(mv)
+			if err != nil {
+				return nil, err
+			}
+			c, err := ck.CommitWithWitness(m, w)
+			if err != nil {
+				return nil, err
+			}
+			roots = append(roots, root{v: td}, root{v: ck}, root{v: w}, root{v: m}, root{v: c})
+		}
+		if len(roots) == 0 {
+			return nil, fmt.Errorf("no ring-Pedersen key could be built from the fixtures")
+		}
+		return roots, nil
+	})
+}
+
+func regIntcomTypes() {
+	src := "gen/intcom"
+	reg[*intcom.TrapdoorKey](famCommitments, "", src)
+	reg[*intcom.CommitmentKey](famCommitments, "", src)
+	reg[*intcom.Commitment](famCommitments, "", src)
+	reg[*intcom.Witness](famCommitments, "", src)
+	reg[*intcom.Message](famCommitments, "", src)
 }
 
 func regKeyAgreementTypes() {
